@@ -13,7 +13,11 @@
      the property needed one more hypothesis, files_agree (whenever the hub is ready its retained chain holds no
      sibling of a merged block), and was false without it: Spec/C07_Unfixed_Spec.v keeps the old join and the
      counterexample (C07_join_by_number_refuted), found by this proof and confirmed on the real code.
-     Target-cursor mode (the join still asks "through the cursor" for a number) keeps files_on_hub / target_on_chain.
+     Target-cursor mode: since the fix "target join on identity" (JoiningSource.liveSourceThrough) a target cursor
+     below the file block joins as number mode does; a cursor at or above it joins "through the cursor", where the
+     hub's block of that height is the ancestor of the (canonical) cursor block, hence the file's block.  It keeps
+     target_on_chain.  BEFORE that fix it needed files_on_hub and was false without it
+     (Spec/C07_TargetUnfixed_Spec.v, C07_target_join_by_number_refuted, confirmed on the real code).
 
    The schedule (pauses), the fuel, the hub's retention, the position of the hub window are arbitrary.
 
@@ -194,7 +198,8 @@ Definition C07_seamless_cursor : Prop :=
 (* ------------------------------------------------------------------ through a target cursor *)
 
 (* the ready hub's retained chain holds every merged block numbered between its lowest block and its head
-   (stronger than files_agree: the chain has no gap where the files have a block) *)
+   (stronger than files_agree: the chain has no gap where the files have a block).  The hypothesis the target-cursor
+   join by NUMBER needed (Spec/C07_TargetUnfixed_Spec.v); no theorem about the fixed model uses it *)
 Definition files_on_hub (c : jcfg) (w : world) (merged : list block) : Prop :=
   forall k hd s0 sg b,
     h_ready (w_hub (world_after c k w)) = true ->
@@ -225,7 +230,7 @@ Definition C07_seamless_target : Prop :=
     hub_of_universe U c w ->
     chain_ok canon -> incl canon U ->
     let merged := filter (fun b => bnum b <? merged_end) canon in
-    eventual_tip c w canon -> files_on_hub c w merged -> target_on_chain c w cu ->
+    eventual_tip c w canon -> target_on_chain c w cu ->
     j_mode c = 2 -> j_cursor c = Some cu -> j_filter c = 0 -> j_stop c = 0 ->
     0 < j_bundle c -> Forall (fun b => bnum b < file_bound) merged ->
     In B canon -> bref B = cu_blk cu ->
